@@ -79,6 +79,7 @@ def snapshotOps : CpOps Snap where
   commit := commit
   revert := revert
   createCheckpoint := createCheckpoint
+  setCode := journalOps.setCode
 
 /-- the execution specification's transaction: `Evm.transactWith` over snapshots -/
 def transact (fuel : Nat) (w : World) (e : Env) (spec : Nat) : R (Outcome × World) :=
